@@ -7,6 +7,7 @@ K4  const definitions are bound in an order that does not depend on a hash seed 
 K5  min / max folds start from the identity of the constant's type
 K6  every const definition that is resolved (or recorded as a size) is entered into the table that the resolver of later
     const definitions reads, on every path of the definition loop (paths pruned by the definition's type)
+K7  cross-reference: const-sized repeat literals are constrained exactly like literal-sized ones (C05-S2 rows for ArrayRepeatLiteralConst / ArrayConst)
 """
 import re
 
@@ -354,5 +355,18 @@ def rule_k6(ctx):
     return res
 
 
+def rule_k7(ctx):
+    """Cross-reference: a const-sized repeat literal is constrained like a literal-sized one (C05-S2) - else `[2; N]` and `[2; 3]` compile differently."""
+    from . import C05
+    res = RuleResult("K7", "const-sized array literals take part in literal type inference like literal-sized ones (cross-reference to C05-S2)")
+    s2 = C05.rule_s2(ctx)
+    mine = [x for x in s2.findings if "Const" in x.site]
+    for x in mine:
+        res.bad(Finding("K7", x.fn, x.site, x.message, x.span))
+    if not mine:
+        res.ok({"verdict": "C05-S2 holds for ArrayRepeatLiteralConst / ArrayConst rows"})
+    return res
+
+
 def run(ctx):
-    return ctx.run_rules([rule_k1, rule_k2, rule_k3, rule_k4, rule_k5, rule_k6])
+    return ctx.run_rules([rule_k1, rule_k2, rule_k3, rule_k4, rule_k5, rule_k6, rule_k7])
